@@ -79,7 +79,8 @@ fn strings_over(alpha: &[char], max: usize) -> Vec<String> {
 // ───────────── glob_match ─────────────
 
 pub fn glob_part(maxlen: usize, evals: &AtomicU64, nontrivial: &AtomicU64) -> Vec<Violation> {
-    let alpha = ['a', 'b', '*', '?', '.', '/'];
+    // 'é' is a two-byte character: `?` must consume one CHARACTER, not one byte
+    let alpha = ['a', 'b', '*', '?', '.', '/', 'é'];
     let strs = strings_over(&alpha, maxlen);
     let cs: Vec<Vec<char>> = strs.iter().map(|s| s.chars().collect()).collect();
     (0..strs.len())
@@ -515,7 +516,7 @@ pub fn run(ctx: &Ctx) -> ! {
     let mut rep = Report::new("exploration");
     rep.set("evaluations", evals.load(Ordering::Relaxed))
         .set("distinct_nontrivial", nontrivial.load(Ordering::Relaxed))
-        .set("rule", format!("glob_match: every (pattern, text) with both of length <= {glob_len} over {{a,b,*,?,.,/}} vs a DP reference; is_excluded: every pattern of length <= 3 (+ trailing-slash variants) x every path of 1..3 components over names of length <= 2 from {{a,*,?,.}}; build_plan: all (src,dst) metadata maps over two 3-path universes (plus a 4-path one in thorough; chosen so byte order and component order of paths disagree) x 43 exclude lists x delete on/off vs a set-comprehension reference; listing parser on rendered and real `find -printf` output; non-trivial = pattern or text contains a metacharacter / path is excluded / plan is non-empty"))
+        .set("rule", format!("glob_match: every (pattern, text) with both of length <= {glob_len} over {{a,b,*,?,.,/,é}} vs a DP reference; is_excluded: every pattern of length <= 3 (+ trailing-slash variants) x every path of 1..3 components over names of length <= 2 from {{a,*,?,.}}; build_plan: all (src,dst) metadata maps over two 3-path universes (plus a 4-path one in thorough; chosen so byte order and component order of paths disagree) x 43 exclude lists x delete on/off vs a set-comprehension reference; listing parser on rendered and real `find -printf` output; non-trivial = pattern or text contains a metacharacter / path is excluded / plan is non-empty"))
         .set("glob_pairs", glob_evals)
         .set("cli_dry_run_runs", cli_runs)
         .set("samples", json!([
